@@ -105,10 +105,12 @@ class C01(core.Property):
             used.append(i)
             x = rng.random()
             ver = rng.random() > 0.04
+            mn = None
             if x < 0.55:
                 m, ps = ["user", self._behav(rng)], "ok"
             elif x < 0.65:
                 m, ps = ["unknown", rng.choice([0, 1, 2])], "ok"
+                mn = rng.randrange(10 ** 6) if rng.random() < 0.8 else None
             elif x < 0.75:
                 m, ps = ["unknown", 0], rng.choice(["bad", "bad", "fail"])
             elif x < 0.90:
@@ -117,6 +119,8 @@ class C01(core.Property):
                 m, ps = ["builtin", False, ub("initialize")], "ok"
                 has_init = True
             msgs.append(["recv", {"t": "req", "id": i, "ver": ver, "ps": ps, "m": m, "np": rng.random() < 0.3}])
+            if mn is not None:
+                msgs[-1][1]["mn"] = mn          # the unknown method's name on the wire (sched.UNKNOWN_NAMES)
         # cancels
         for _ in range(rng.choice([0, 0, 1, 1, 2, 3])):
             x = rng.random()
@@ -147,9 +151,10 @@ class C01(core.Property):
             else:
                 msgs.insert(rng.randint(0, len(msgs)), ["recv", {"t": "garbage", "v": rng.randint(0, 7)}])
                 continue
-            msgs.insert(rng.randint(0, len(msgs)),
-                        ["recv", {"t": "notif", "tag": tag, "ver": rng.random() > 0.05, "ps": ps, "m": m,
-                                  "np": rng.random() < 0.2}])
+            fr = {"t": "notif", "tag": tag, "ver": rng.random() > 0.05, "ps": ps, "m": m, "np": rng.random() < 0.2}
+            if m == ["unknown"] and ps == "ok" and rng.random() < 0.8:
+                fr["mn"] = rng.randrange(10 ** 6)
+            msgs.insert(rng.randint(0, len(msgs)), ["recv", fr])
         # outgoing request + responses (a response is never answered)
         if rng.random() < 0.15:
             oid = rng.choice(["o1", 900])
